@@ -1,15 +1,19 @@
 --------------------------- MODULE ImportsTrace ---------------------------
 (* Binding B for Imports.tla: a bare child imports a sequence of modules and logs                *)
 (*   {"ev":"Boot"}                                header                                          *)
+(* small-step recording (Atomic = FALSE)                                                          *)
 (*   {"ev":"Import","m":m}                        the host asks for m                             *)
 (*   {"ev":"Start","x":x}                         the import system starts looking for / loading  *)
 (*                                                the ioflo module x (sys.meta_path observer)     *)
 (*   {"ev":"Done","loaded":[..],"bound":[..]}     the import returned; sys.modules and the bound  *)
 (*                                                submodules, minus those of the bare interpreter *)
-(* Loads of non-ioflo modules and the end of a module body are not logged: they are internal     *)
-(* steps of the specification here.  The recorded execution must be a behaviour of Imports.tla    *)
-(* with the constants derived from the tree: same ioflo modules started in the same order, same  *)
-(* loaded and bound sets whenever an import returns.                                              *)
+(*   Loads of non-ioflo modules and the end of a module body are not logged: they are internal   *)
+(*   steps of the specification here.                                                             *)
+(* atomic recording (Atomic = TRUE)                                                               *)
+(*   {"ev":"ImportAll","m":m,"order":[..],"loaded":[..],"bound":[..]}  one event per import       *)
+(* The recorded execution must be a behaviour of Imports.tla with the constants derived from the *)
+(* tree: same ioflo modules started in the same order, same loaded and bound sets whenever an    *)
+(* import returns.                                                                                *)
 EXTENDS Imports, TraceBatch
 
 VARIABLES tid, l
@@ -26,10 +30,12 @@ Silent == UNCHANGED <<tid, l>>
 
 TraceNext ==
     \/ Consume("Import") /\ Import(Ev.m)
-    \/ Consume("Start") /\ Start(Ev.x)
+    \/ Consume("Start") /\ StartOf(Ev.x)
     \/ Consume("Done") /\ Done /\ loaded = ToSet(Ev.loaded) /\ bound = ToSet(Ev.bound)
-    \/ Silent /\ \E x \in Ext : LoadExt(x)
-    \/ Silent /\ \E x \in Module : Finish(x)
+    \/ Consume("ImportAll") /\ ImportAll(Ev.m) /\ res' = "ok"
+                            /\ order' = Ev.order /\ loaded' = ToSet(Ev.loaded) /\ bound' = ToSet(Ev.bound)
+    \/ Silent /\ LoadExt
+    \/ Silent /\ Finish
 
 TraceSpec == TraceInit /\ [][TraceNext]_tvars
 TraceOK == TraceConstraint(tid, l)
